@@ -64,8 +64,11 @@ def c12_1(ctx):
         dcv = decf.closure_vars() if isinstance(decf, FuncVal) else {}
         ctx.check(dcv.get("struct_data") == wfmt and dcv.get("struct_size") == wsz, "length-field:%d" % op, BSS + ":1",
                   "opcode %d decodes its length field with %r (%r bytes); consensus: %s" % (op, dcv.get("struct_data"), dcv.get("struct_size"), wfmt))
-        canon = norm(encf.node.body) if isinstance(encf, FuncVal) and isinstance(encf.node, ast.Lambda) else None
-        ctx.check(canon == "struct.pack('%s', d)" % wfmt, "length-field-encoder:%d" % op, BSS + ":1", "opcode %d encodes its length field with `%s`" % (op, canon))
+        from rules.C16 import _codec          # reads a lambda or a factory-made closure (closure values folded), parameters p0, p1 ..
+        exits_, _names = _codec(encf)
+        if exits_ is None:
+            raise Undecided("the length-field encoder of opcode %d is not a function the table reader can follow" % op)
+        ctx.check(exits_ == {("True", "return struct.pack('%s', p0)" % wfmt)}, "length-field-encoder:%d" % op, BSS + ":1", "opcode %d encodes its length field with `%s`" % (op, sorted(exits_)))
         ms = cv.get("min_size")
         ctx.check(ms == prev_max, "minimal-threshold:%d" % op, VSS + ":1",
                   "decoder of opcode %d judges sizes <= %r non-minimal, but the encoder chooses it for sizes in (%d, %d]: size %s would be %s"
